@@ -1221,3 +1221,10 @@ def case_r6_dispatch_on_none():
     except TypeError:
         err = "TypeError"
     return [_r6_literal(None), _r6_literal(True), _r6_literal("s"), _r6_literal(2.5), _r6_literal(7), isinstance(None, type(None)), err]
+
+
+def case_r7_number_and_char_builtins():
+    import re
+    unesc = re.sub(r"%([0-9A-Fa-f]{2})", lambda m: chr(int(m.group(1), 16)), "50%25 off%22")
+    return [int("25", 16), int("0x1f", 0), int("101", base=2), chr(65) + chr(0x25), ord("a"), hex(255), bin(5), unesc,
+            int(3.9), int(" 7 "), float("1e3"), "%02X" % ord('"'), f"{ord('%'):02X}"]
